@@ -53,6 +53,8 @@ func init() {
 				m.runesMax = int(asInt64(args[1]))
 			case "split":
 				m.splitMax = int(asInt64(args[1]))
+			case "digits":
+				m.digitsMax = int(asInt64(args[1]))
 			}
 			return nil
 		},
